@@ -14,4 +14,5 @@ for p in sorted(glob.glob(os.path.join(root, 'src', 'pydsol', 'core', '*.py'))):
         trees[os.path.basename(p)[:-3]] = ast.parse(src)
 b = normalize.make_baseline(trees)
 json.dump(b, open(normalize.BASELINE_PATH, 'w'), indent=0, sort_keys=True)
-print('modules', len(b), 'classes', sum(len(m['classes']) for m in b.values()), 'methods', sum(len(c['methods']) for m in b.values() for c in m['classes'].values()))
+mods = {k: v for k, v in b.items() if not k.startswith('__')}
+print('modules', len(mods), 'classes', sum(len(m['classes']) for m in mods.values()), 'methods', sum(len(c['methods']) for m in mods.values() for c in m['classes'].values()), 'attribute names', len(b['__attrs__']))
